@@ -169,16 +169,17 @@ theorem objectStep_object (cap : Nat) (c : Codec) (lay : Layout) (o : Obj) (hp :
       rw [hR]; simp [hdr4, Item.numDef]
     rw [this]
 
-theorem sync_at_end (cfg : Cfg) (hs : cfg.sticky = false) (f : Nat) (st : St) (h : st.inp.length ≤ st.pos) :
+theorem sync_at_end (cfg : Cfg) (st : St) (hs : cfg.sticky = false ∨ st.good = true) (f : Nat) (h : st.inp.length ≤ st.pos) :
     ((Stmt.sync f).exec cfg st).halt = .exc := by
   simp only [Stmt.exec]
   have hf : st.inp.length - st.pos + 2 = 1 + 1 := by omega
   rw [hf]
   unfold syncLoop
+  have hc : (cfg.sticky && !st.good) = false := by
+    rcases hs with hs | hs <;> simp [hs]
   have hr : st.sread cfg 4 = ([], { st with pos := st.inp.length, good := false, eof := true, short := true }) := by
     unfold St.sread
-    simp only [hs, Bool.false_and, Bool.false_eq_true, if_false]
-    rw [if_neg (by omega), if_neg (by omega), List.drop_eq_nil_of_le h]
+    rw [if_neg (by simp [hc]), if_neg (by omega), if_neg (by omega), List.drop_eq_nil_of_le h]
   rw [hr]
   simp only
   rw [if_neg (by decide)]
@@ -190,7 +191,7 @@ theorem objectStep_at_end (cap : Nat) (ps : PState) (hend : ps.st.pos = ps.st.in
   unfold objectStep
   have hh : (Gen.ObjectHeaderBase.readProg.exec (memCfg cap) { ps.st with obj := Gen.ObjectHeaderBase.fresh, halt := Halt.none }).halt ≠ .none := by
     rw [ohb_prog, exec_block_cons]
-    have hsync := sync_at_end (memCfg cap) rfl 0 { ps.st with obj := Gen.ObjectHeaderBase.fresh, halt := Halt.none }
+    have hsync := sync_at_end (memCfg cap) { ps.st with obj := Gen.ObjectHeaderBase.fresh, halt := Halt.none } (Or.inl rfl) 0
       (by simp only; omega)
     rw [if_neg (by rw [hsync]; simp), hsync]; simp
   unfold afterHeader
@@ -257,5 +258,22 @@ theorem parse_objects (cap : Nat) : ∀ (L : List (Codec × Layout × Obj)),
     refine ⟨(x.1.name, ob) :: ds, ?_, AllDelivered.cons _ _ _ _ ⟨rfl, hag⟩ h2, h3, ?_⟩
     · rw [h1, hobjs]; simp
     · rw [h4, hcnt]; simp only [countOf]; split <;> omega
+
+theorem enc_length (cap : Nat) (c : Codec) (lay : Layout) (o : Obj) (hp : Parsable cap c lay o) : 4 ≤ (enc cap c o).length := by
+  have hwf := itemsWF_pre c lay hp.reg o hp.user
+  obtain ⟨_, hout, _, _, _⟩ := regular_frame (memCfg cap) c lay hp.reg o hwf
+  unfold enc; rw [hout]; simp
+
+theorem flat_fuel (cap : Nat) : ∀ (L : List (Codec × Layout × Obj)), (∀ x ∈ L, Parsable cap x.1 x.2.1 x.2.2) →
+    L.length ≤ (flat cap L).length := by
+  intro L
+  induction L with
+  | nil => intro _; simp
+  | cons x l ih =>
+    intro h
+    have h1 := enc_length cap x.1 x.2.1 x.2.2 (h x (by simp))
+    have h2 := ih (fun y hy => h y (by simp [hy]))
+    simp only [flat, List.length_append, List.length_cons]
+    omega
 
 end Blf.FileRound
